@@ -92,10 +92,15 @@ func SimC05(c *CheckCtx, i int, r *Rng) error {
 	for pi := range m.Pkgs {
 		sc.Variants = append(sc.Variants, Variant{Name: fmt.Sprintf("alone:%d", pi), Ops: []Op{{Kind: "run", Run: mk([]int{pi}, false)}}})
 	}
-	if _, err := c.RunScenario(sc, i); err != nil {
+	out, err := c.RunScenario(sc, i)
+	if err != nil {
 		return err
 	}
-	c.Env.Stats.Fingerprint(fmt.Sprintf("c05/%d pkgs/%d selected/real=%v/%v/%s", len(m.Pkgs), len(sel), real, names, m.GoVer))
+	if out.AnyNonTrivial() {
+		c.Env.Stats.Fingerprint(fmt.Sprintf("c05/%d pkgs/%d selected/real=%v/%v/%s", len(m.Pkgs), len(sel), real, names, m.GoVer))
+	} else {
+		c.Env.Stats.Add("trivial-simulations", 1)
+	}
 	if real {
 		c.Env.Stats.Add("probe/real-generators-world", 1)
 	}
